@@ -379,6 +379,9 @@ def run_case(case):
         scn2 = dict(scn, history=[("c", 1000), ("s", 30), ("c", 900), ("s", 1100), ("c", 20), ("s", 700), ("c", 5)])
         one(scn2, {"layer": "D", "class": cname, "capture": "duplex"}, duplex=True, mss=400)
         one(scn2, {"layer": "D", "class": cname, "capture": "duplex_merged"}, duplex=True, mss=333, merged=True)
+        # long histories: 300 records per direction (the per-direction record counter passes 255 and 256; many records per segment)
+        scn3 = dict(scn, history=[("c", 3)] * 150 + [("s", 5)] * 300 + [("c", 1)] * 150 + [("s", 0), ("c", 2), ("s", 7)])
+        one(scn3, {"layer": "D", "class": cname, "capture": "300 records per direction"}, merged=True, mss=1460)
 
     r = {"n": n, "fails": fails, "nontrivial": nontriv, "outcomes": sorted(outcomes), "count": count}
     if sample:
